@@ -63,7 +63,7 @@ Proof.
   assert (to_chars r ≠ []) as Hne by (by destruct (to_chars r)).
   assert (Forall (λ a, negb (py_space a) = true) (to_chars r)) as HF.
   { apply Forall_forall. intros c Hc. destruct (to_chars r); [done|].
-    rewrite forallb_forall in Hall. apply Hall. by apply elem_of_list_In. }
+    rewrite forallb_forall in Hall. apply elem_of_list_In, Hall in Hc. by apply andb_true_iff in Hc as [_ ?]. }
   destruct (exists_last Hne) as (t & b & E). exists t, b. rewrite <-E. split_and!; [done|done|].
   intros ->. done.
 Qed.
